@@ -82,6 +82,30 @@ def siblings(a, b):
     return None
 
 
+def verbatim_copiers(ctx):
+    """{path of a split-table method: index of the argument that is the source} for methods that hand their main table to hashbrown's
+    clone / clone_from / clone_from_with_hasher: the copy keeps (or may keep) every element in the bucket the *source's* hasher chose"""
+    def build():
+        from rules_protocol import HBT
+        T = ctx.facts.types
+        out = {}
+        for b in ctx.facts.bodies.values():
+            if b.kind == "Closure" or "self_ty" not in b.raw or T[b.raw["self_ty"]].get("adt") != ctx.roles.S:
+                continue
+            for c in ctx.calls(b):
+                if b.is_cleanup(c.loc.bb):
+                    continue
+                src = None
+                if c.tname == HBT + "clone" or (c.name == "core::clone::Clone::clone" and c.self_adt == "hashbrown::raw::RawTable"):
+                    src = c.arg_path(0)
+                elif c.tname in (HBT + "clone_from", HBT + "clone_from_with_hasher") or (c.name == "core::clone::Clone::clone_from" and c.self_adt == "hashbrown::raw::RawTable"):
+                    src = c.arg_path(1)
+                if src is not None and ctx.roles.is_main_place(ctx.resolve(b, src)[1]) and 1 <= src.root <= b.arg_count:
+                    out[b.path] = src.root - 1
+        return out
+    return ctx.memo("verbatim_copiers", build)
+
+
 def rule_h_agree(ctx):
     R = RuleResult("H-agree", "every hash value and re-hashing closure handed to a split-table operation is derived from the hash builder of the same map "
                    "as the table (handles: their table and hash-builder fields are taken from one map; clone/clone_from: the builder that re-hashes the "
@@ -108,6 +132,50 @@ def rule_h_agree(ctx):
             if recv is None:
                 continue
             rkey = holder_prefix(ctx, recv)
+            vc = verbatim_copiers(ctx)
+            if lc.path in vc and b.kind != "Closure":
+                # a verbatim table copy keeps the source's placement: the hasher handed along — which is the one the receiving map goes on
+                # using (first clause below) — must be the source map's builder or a clone of it
+                srcp = c.arg_path(vc[lc.path])
+                skey = holder_prefix(ctx, srcp) if srcp is not None else None
+                for a in c.args[1:]:
+                    d = b.source_def(a)
+                    if d is None or d[1] != "call":
+                        continue
+                    x = ctx.call_at(b, d[0].bb)
+                    xl = x.local_callee()
+                    if xl is None or xl.path not in hm:
+                        continue
+                    bp0 = x.arg_path(0)
+                    origin = None
+                    if bp0 is not None:
+                        origin = holder_prefix(ctx, bp0)
+                        if origin is None and not (1 <= bp0.root <= b.arg_count):
+                            dd = b.unique_def(bp0.strip_refs().root)
+                            if dd is not None and dd[1] == "call":
+                                cc = ctx.call_at(b, dd[0].bb)
+                                if cc.name == "core::clone::Clone::clone" and cc.arg_path(0) is not None:
+                                    origin = holder_prefix(ctx, cc.arg_path(0))
+                    if origin != skey and origin is not None and bp0 is not None:
+                        # the receiving map's own builder, but only just replaced by a clone of the source's
+                        bk = bp0.strip_refs().key()
+                        for loc2, st2 in b.all_assigns():
+                            if b.is_cleanup(loc2.bb) or not st2["place"]["proj"] or st2["rv"]["k"] != "use" or not b.dominates(loc2, c.loc):
+                                continue
+                            if b.expand(st2["place"]).strip_refs().key() != bk:
+                                continue
+                            sd2 = b.source_def(st2["rv"]["op"])
+                            if sd2 is not None and sd2[1] == "call":
+                                cc = ctx.call_at(b, sd2[0].bb)
+                                if cc.name == "core::clone::Clone::clone" and cc.arg_path(0) is not None and holder_prefix(ctx, cc.arg_path(0)) == skey:
+                                    origin = skey
+                    n += 1
+                    okv = skey is not None and origin == skey
+                    R.inst(fn=b.path, site=c.where(), callee=lc.name, copies_from=str(srcp), builder_from=str(bp0), verdict="ok: the source's builder" if okv else "VIOLATION")
+                    if not okv:
+                        R.viol("%s:%s:source-builder" % (b.path, lc.name), c.where(), "%s copies the table of %s bucket for bucket (every element stays where %s's hasher put it) "
+                               "but goes on with a hasher built from %s: lookups in the copy hash differently from its layout whenever the two builders differ"
+                               % (lc.path, srcp, srcp, bp0))
             for i, a in enumerate(c.args[1:], 1):
                 d = b.source_def(a)
                 hcall = None
@@ -135,6 +203,20 @@ def rule_h_agree(ctx):
                 bp = hcall.arg_path(0)
                 key = "%s:%s:arg%d" % (b.path, lc.name, i)
                 bkey = holder_prefix(ctx, bp) if bp is not None else None
+                if b.kind == "Closure" and bp is not None and (bkey is None or rkey is None):
+                    # table and builder captured separately (`|k| { make_hash(&self.hash_builder, k); self.table.find(..) }`): compare
+                    # what the captures are in the enclosing function
+                    b2, recv2 = ctx.resolve(b, recv)
+                    b3, bp2 = ctx.resolve(b, bp)
+                    if b2 is b3 and b2 is not b and recv2 is not None and bp2 is not None:
+                        k1, k2 = holder_prefix(ctx, recv2), holder_prefix(ctx, bp2)
+                        if k1 is not None and k2 is not None:
+                            ok = k1 == k2
+                            R.inst(fn=b.path, site=c.where(), callee=lc.name, builder=str(bp2), table=str(recv2), verdict="ok" if ok else "VIOLATION")
+                            if not ok:
+                                R.viol(key, c.where(), "%s is given a hash(er) built from %s while the table is %s: lookups/re-hashing would use another map's hasher"
+                                       % (lc.path, bp2, recv2))
+                            continue
                 if bkey is not None and rkey is not None:
                     ok = bkey == rkey
                     R.inst(fn=b.path, site=c.where(), callee=lc.name, builder=str(bp), table=str(recv), verdict="ok" if ok else "VIOLATION")
